@@ -45,7 +45,10 @@ NEUTRAL = ["which of ValueError / UnknownBackendException reports a source WITHO
 SCHEMES = ["vfa", "vf.b+c-d"]
 GOOD_SOURCES = ["vfa:one", "vfa://host/x?y#z", "vf.b+c-d:zz"]
 UNKNOWN_SOURCES = ["vfunknown:x", "vfa.x://y", "VFA:upper"]
-NOSCHEME_SOURCES = ["noscheme", ":x", "vfa", "vf_a:x", " vfa:x", "-vfa:x"]
+NOSCHEME_SOURCES = ["noscheme", ":x", "vfa", "vf_a:x", " vfa:x", "-vfa:x",
+                    # letters that case-insensitive matching folds onto ASCII ones (long s, Kelvin sign): not scheme characters
+                    "\u017ftore://x", "\u212a:x"]
+ODD_SCHEMES = ["\u017ftore", "\u212a"]         # backends registered under these names must never be reached
 
 _LOG: List[Any] = []
 
@@ -80,12 +83,24 @@ def register():
             return Rec
         made[sc] = mk()
         backends.register_backend(sc, made[sc])
+    for sc in ODD_SCHEMES:
+        def mk2(sc=sc):
+            class Odd(backends.Backend):
+                @classmethod
+                def commit_object(cls, committed_object, store_object, relative_path):
+                    _LOG.append(("commit", sc, store_object, committed_object, list(relative_path)))
+
+                @classmethod
+                def update_object(cls, updated_object, store_object, relative_path):
+                    _LOG.append(("update", sc, store_object, updated_object, list(relative_path)))
+            return Odd
+        backends.register_backend(sc, mk2())
     return made
 
 
 def unregister():
     from basyx.aas.backend import backends
-    for sc in SCHEMES:
+    for sc in SCHEMES + ODD_SCHEMES:
         backends._backends_map.pop(sc, None)
 
 
